@@ -23,10 +23,10 @@ type sgFSection struct {
 }
 
 type sgFCodec struct {
-	pt    int
-	name  string // "opus/48000/2"
-	fmtp  string
-	fb    []string
+	pt   int
+	name string // "opus/48000/2"
+	fmtp string
+	fb   []string
 }
 
 const sgFP = "AA:BB:CC:DD:EE:FF:00:11:22:33:44:55:66:77:88:99:AA:BB:CC:DD:EE:FF:00:11:22:33:44:55:66:77:88:99"
